@@ -355,6 +355,29 @@ class Emitter:
                 s.tyseen[('fwd', name)] = True
                 s.fwd.append('struct %s;' % s.sname(name))
 
+    def int_only(s, t):
+        t = s.resolve(t)
+        if isinstance(t, IntTy): return True
+        if isinstance(t, ArrTy): return s.int_only(t.el)
+        if isinstance(t, StructTy): return t.fields is not None and all(s.int_only(f) for f in t.fields)
+        return False
+    def is_union(s, t):
+        """C/C++ unions of integer / byte-array members (e.g. the small-string buffer of std::string) are emitted as plain byte
+        arrays: byte accesses then stay array-element accesses (CBMC keeps them field-sensitive and propagates constants)
+        instead of byte updates of the widest member."""
+        if not isinstance(t, NamedTy) or not t.name.startswith('union.'): return False
+        st = s.M.named[t.name]
+        return isinstance(st, StructTy) and st.fields is not None and s.int_only(st)
+    def field_offset(s, st, i):
+        off = 0
+        for j, f in enumerate(st.fields):
+            sz, al = s.size_align(f)
+            if st.packed: al = 1
+            off = (off + al - 1) // al * al
+            if j == i: return off
+            off += sz
+        raise IndexError
+
     def ensure_def(s, name):
         k = '%' + name
         if k in s.tyseen: return
@@ -364,7 +387,11 @@ class Emitter:
         st = s.M.named[name]
         if isinstance(st, StructTy) and st.fields is None:
             s.tyseen[k] = True; s.inprogress.discard(k); return
-        body = s.struct_body(st)
+        if s.is_union(NamedTy(name)):
+            sz, al = s.size_align(st)
+            body = '{ u8 b[%d]; } __attribute__((aligned(%d)))' % (sz, al)
+        else:
+            body = s.struct_body(st)
         s.tydecl.append('struct %s %s;' % (s.sname(name), body))
         s.tyseen[k] = True
         s.inprogress.discard(k)
@@ -459,6 +486,7 @@ class Emitter:
         if k == 'cstr':
             return '((%s){{%s}})' % (s.cty(t), ','.join(str(b) for b in v.data))
         if k == 'cstruct':
+            if s.is_union(t): raise NotImplementedError('constant of union type')
             return '((%s){%s})' % (s.cty(t), ', '.join(s.vexpr(e, fn) for e in v.els) or '0')
         if k == 'carray':
             return '((%s){{%s}})' % (s.cty(t), ', '.join(s.vexpr(e, fn) for e in v.els) or '0')
@@ -478,7 +506,9 @@ class Emitter:
         """initializer (brace form, no compound-literal casts at aggregate level)"""
         k = v.kind; t = v.ty
         if k == 'cstr': return '{{%s}}' % ','.join(str(b) for b in v.data)
-        if k == 'cstruct': return '{%s}' % (', '.join(s.init_expr(e) for e in v.els) or '0')
+        if k == 'cstruct':
+            if s.is_union(t): raise NotImplementedError('constant of union type')
+            return '{%s}' % (', '.join(s.init_expr(e) for e in v.els) or '0')
         if k == 'carray': return '{{%s}}' % (', '.join(s.init_expr(e) for e in v.els) or '0')
         if k in ('undef', 'zero'):
             rt = s.resolve(t)
@@ -504,7 +534,12 @@ class Emitter:
         for o in ops[2:]:
             if isinstance(cur, NamedTy): s.ensure_def(cur.name)
             rc = s.resolve(cur)
-            if isinstance(rc, StructTy):
+            if s.is_union(cur):
+                assert o.kind == 'int'
+                ft = rc.fields[o.v]
+                e = '((%s)&(*%s)%s.b[%d])' % (s.cty(PtrTy(ft)), e, path, s.field_offset(rc, o.v)); path = ''
+                cur = ft
+            elif isinstance(rc, StructTy):
                 assert o.kind == 'int'
                 path += '.f%d' % o.v
                 cur = rc.fields[o.v]
@@ -639,12 +674,13 @@ class Fn:
             for ln in b['ins']:
                 if acc is not None:
                     acc += ' ' + ln
-                    if ln.strip() == ']' or ln.rstrip().endswith(']') and ln.strip().startswith(']'):
+                    if ln.strip().startswith(']'):      # "]" possibly followed by ", !llvm.loop !N"
                         joined.append(acc); acc = None
                     continue
                 if ln.startswith('switch ') and not ln.rstrip().endswith(']'):
                     acc = ln; continue
                 joined.append(ln)
+            if acc is not None: raise RuntimeError('unterminated switch in block %s of %s' % (b['name'], f['name']))
             b['ins'] = joined
         # parse instructions
         s.blocks = blocks
@@ -653,6 +689,16 @@ class Fn:
             b['parsed'] = [s.parse_ins(ln) for ln in b['ins']]
             for I in b['parsed']:
                 if I.get('dst') is not None: s.defs[I['dst']] = I
+        # integer stack slots that are also viewed as byte arrays (e.g. the 8-byte scratch buffer of ByteString(unsigned long),
+        # which clang types as one i64): keep them as byte arrays, full-width accesses are composed from the bytes
+        s.byte_allocas = set()
+        for b in blocks:
+            for I in b['parsed']:
+                if I['op'] == 'bitcast' and I['x'].kind == 'reg' and I['x'].name in s.defs:
+                    A = s.defs[I['x'].name]
+                    if A['op'] == 'alloca' and isinstance(s.E.resolve(A['aty']), IntTy) and s.E.resolve(A['aty']).bits in (16, 32, 64) and (A['cnt'] is None):
+                        tt = s.E.resolve(I['ty'])
+                        if isinstance(tt, PtrTy) and s.bytes_at(tt.to, s.E.resolve(A['aty']).bits // 8): s.byte_allocas.add(I['x'].name)
         # the entry block label for phi purposes: entry block unnamed gets number = #params (unnamed count)
         # find entry name used by phis: LLVM numbers it after the unnamed params
         if blocks[0]['name'] == 'entry__':
@@ -872,14 +918,29 @@ class Fn:
             sn = 'st_' + s.reg(d)
             if I['cnt'] is None or I['cnt'].kind == 'int':
                 n = 1 if I['cnt'] is None else I['cnt'].v
-                if n == 1: s.decls.append('  %s %s;' % (E.cty(I['aty']), sn)); e = '&%s' % sn
+                if d in s.byte_allocas:
+                    nb = E.resolve(I['aty']).bits // 8
+                    s.decls.append('  u8 %s[%d] __attribute__((aligned(%d)));' % (sn, nb, nb)); e = '((%s)&%s[0])' % (E.cty(I['ty']), sn)
+                elif n == 1: s.decls.append('  %s %s;' % (E.cty(I['aty']), sn)); e = '&%s' % sn
                 else: s.decls.append('  %s %s[%d];' % (E.cty(I['aty']), sn, n)); e = '&%s[0]' % sn
                 setdst(I['ty'], e)
             else:
                 sz, _ = E.size_align(I['aty'])
                 setdst(I['ty'], '((%s)malloc(%d * (u64)%s))' % (E.cty(I['ty']), sz, E.vexpr(I['cnt'], s)))
-        elif op == 'load': setdst(I['ty'], '*%s' % E.vexpr(I['ptr'], s))
-        elif op == 'store': out.append('*%s = %s;' % (E.vexpr(I['ptr'], s), E.vexpr(I['val'], s)))
+        elif op == 'load':
+            rt = E.resolve(I['ty']); bo = None
+            if isinstance(rt, IntTy) and rt.bits in (16, 32, 64): bo = s.byte_origin(I['ptr'], rt.bits // 8)
+            if bo is not None:      # wide load from byte storage: compose from the bytes (little endian)
+                ct = E.cty(rt); s.declare(d, I['ty'])
+                out.append('{ u8* bp_ = (u8*)%s; %s = %s; }' % (E.vexpr(bo, s), s.reg(d), ' | '.join('((%s)bp_[%d] << %d)' % (ct, i, 8 * i) for i in range(rt.bits // 8))))
+            else: setdst(I['ty'], '*%s' % E.vexpr(I['ptr'], s))
+        elif op == 'store':
+            rt = E.resolve(I['val'].ty); bo = None
+            if isinstance(rt, IntTy) and rt.bits in (16, 32, 64): bo = s.byte_origin(I['ptr'], rt.bits // 8)
+            if bo is not None:      # wide store into byte storage: byte by byte
+                ct = E.cty(rt)
+                out.append('{ u8* bp_ = (u8*)%s; %s bv_ = %s; %s }' % (E.vexpr(bo, s), ct, E.vexpr(I['val'], s), ' '.join('bp_[%d] = (u8)(bv_ >> %d);' % (i, 8 * i) for i in range(rt.bits // 8))))
+            else: out.append('*%s = %s;' % (E.vexpr(I['ptr'], s), E.vexpr(I['val'], s)))
         elif op == 'getelementptr':
             # result type: compute
             rty = s.gep_type(I['base_ty'], I['ops'])
@@ -914,6 +975,7 @@ class Fn:
             t = I['a'].ty; path = ''
             for i in I['idx']:
                 rt = E.resolve(t)
+                if E.is_union(t): raise NotImplementedError('extractvalue / insertvalue into a union')
                 if isinstance(rt, StructTy): path += '.f%d' % i; t = rt.fields[i]
                 else: path += '.a[%d]' % i; t = rt.el
             setdst(t, '(%s)%s' % (E.vexpr(I['a'], s), path))
@@ -921,6 +983,7 @@ class Fn:
             t = I['a'].ty; path = ''
             for i in I['idx']:
                 rt = E.resolve(t)
+                if E.is_union(t): raise NotImplementedError('extractvalue / insertvalue into a union')
                 if isinstance(rt, StructTy): path += '.f%d' % i; t = rt.fields[i]
                 else: path += '.a[%d]' % i; t = rt.el
             setdst(I['ty'], E.vexpr(I['a'], s))
@@ -942,6 +1005,28 @@ class Fn:
         elif op == 'asm': out.append('/* inline asm dropped */')
         else: raise NotImplementedError(op)
 
+    def bytes_at(s, T, n):
+        """are the first n bytes of a T all 1-byte integer leaves?"""
+        E = s.E; rt = E.resolve(T)
+        if isinstance(rt, IntTy): return rt.bits == 8 and n >= 1
+        if not isinstance(rt, (StructTy, ArrTy)): return False
+        if isinstance(rt, StructTy) and rt.fields is None: return False
+        lv = []
+        try: s.leaves(T, 0, '', lv, n)
+        except Exception: return False
+        if not lv or any(l is None for l in lv): return False
+        return len(lv) >= n and all(sz == 1 and isinstance(t, IntTy) and off == i for i, (off, sz, path, t) in enumerate(lv[:n]))
+    def byte_origin(s, ptr, n):
+        """if the pointer of an n-byte integer access is (behind bitcasts) a pointer to byte storage, return that pointer value"""
+        E = s.E
+        v = s.strip_cast(ptr)
+        if v.kind == 'reg' and v.name in s.byte_allocas: return v
+        if v is ptr: return None
+        t = E.resolve(v.ty)
+        if not isinstance(t, PtrTy): return None
+        rt = E.resolve(t.to)
+        if isinstance(rt, IntTy): return v if rt.bits == 8 else None
+        return v if s.bytes_at(t.to, n) else None
     def strip_cast(s, v):
         # look through bitcasts / zero GEPs to the original typed pointer
         while v.kind == 'reg' and v.name in s.defs:
@@ -954,7 +1039,11 @@ class Fn:
         E = s.E
         rt = E.resolve(t)
         if isinstance(t, NamedTy): E.ensure_def(t.name)
-        if isinstance(rt, StructTy):
+        if E.is_union(t):
+            for i in range(E.size_align(rt)[0]):
+                if off + i >= limit: break
+                out.append((off + i, 1, path + '.b[%d]' % i, IntTy(8)))
+        elif isinstance(rt, StructTy):
             o = 0
             for i, f in enumerate(rt.fields):
                 sz, al = E.size_align(f)
@@ -1279,6 +1368,7 @@ PRELUDE = r'''
 #include <stddef.h>
 #include <string.h>
 #include <stdlib.h>
+#include <errno.h>
 typedef uint8_t u8; typedef uint16_t u16; typedef uint32_t u32; typedef uint64_t u64;
 typedef int8_t i8; typedef int16_t i16; typedef int32_t i32; typedef int64_t i64;
 typedef unsigned __int128 u128; typedef __int128 i128;
